@@ -39,6 +39,7 @@ def monitor(case, tr, raw):
     qthread = {}     # queued fiber -> kernel thread on whose run queue it was put
     ycount = {}      # queued, runnable fiber -> yields of that thread's running fibers since it became runnable there
     nfib = 0
+    relabel = None   # first store of READY over RUNNING by a thread the fiber does not run on
     maint = {}       # scheduler-loop (maintenance) fiber -> its kernel thread
     for (t, loc, kind, val) in tr:
         if loc == 910 and kind == 99 and val == 0:
@@ -77,6 +78,12 @@ def monitor(case, tr, raw):
                 return "fiber %d's control block accessed by thread %d after it was reclaimed" % (f, t)
             if kind == 19:
                 first = f not in state
+                if val == 2 and state.get(f) == 1 and ctx.get(f, ('?',))[0] == 'live' and ctx[f][1] != t and relabel is None:
+                    # only the thread a fiber runs on may turn RUNNING into READY (when it switches away from it and
+                    # re-queues it); a waker stores READY into a fiber that has labelled itself WAITING
+                    relabel = ("thread %d stored READY into fiber %d while that fiber is RUNNING on thread %d: its next "
+                               "fiber_yield does not re-queue it (switch_to re-queues RUNNING fibers only), so a runnable "
+                               "fiber drops out of every run queue" % (t, f, ctx[f][1]))
                 state[f] = val
                 idle.pop(f, None)
                 if val == 1 and not first and f in ctx and ctx[f][0] == 'live' and ctx[f][1] != t:
@@ -174,8 +181,9 @@ def monitor(case, tr, raw):
             if owed.get(t) == f:
                 del owed[t]
     if not finished:
-        return "the main fiber never finished (some fiber is stranded or the schedule bound was hit)"
-    return None
+        return "the main fiber never finished (some fiber is stranded or the schedule bound was hit)" + \
+            ("; earlier in this run " + relabel if relabel else "")
+    return relabel
 
 
 def to_labels(tr, nk):
